@@ -5,10 +5,11 @@
    canonical gapped reference (after its k-th base exactly the total length of the block's insertions at k), hence
    degaps to the reference, the query row has the same length, and the query row read through the reference row
    (the columns where the reference row is '-' deleted) is exactly the sam toMultiAlign --pad row of the same block -
-   so every reference position carries the aligned base / '-' / 'N' the statement demands.  PARTIAL: the order of the
-   inserted bases inside the gap columns has no theorem (executable Coq model compared byte for byte with
-   sam.ToPairAlign, and pairs written from the statement); the window cut is C15_topa_window_cut. *)
-From GF Require Import Base Alphabet SymbolsDef FastaModel Cigar SamModel TopaModel TopaProofs PairProofs.
+   so every reference position carries the aligned base / '-' / 'N' the statement demands; and, for blocks in which no
+   two records insert at the same reference position (the property's non-conflict case), the query row read in the gap
+   columns carries, position after position, exactly the inserted bases of the records in CIGAR order.  Together:
+   every clause of the statement for all blocks.  The window cut is C15_topa_window_cut. *)
+From GF Require Import Base Alphabet SymbolsDef FastaModel Cigar SamModel TopaModel TopaProofs PairProofs PairInsProofs.
 Open Scope N_scope.
 
 Theorem C02_walk2_rows : forall ins ops q r sq ref x y, ~ In 45 ref ->
@@ -70,6 +71,17 @@ Theorem C02_pairk_no_insertions : forall ref block R Q, block <> [] -> ~ In 45 r
   R = ref /\ exists raw, seq_from_block (length ref) block = Some raw /\ Q = fasta_seq true false 0 0 raw.
 Proof. exact pairk_no_insertions. Qed.
 Print Assumptions C02_pairk_no_insertions.
+
+(* the inserted bases: the query row restricted to the columns where the reference row has '-' is, for k = 0..|ref|, the
+   inserted bases of the insertions that start after k reference bases (Otot: per record, in CIGAR order) - when no two
+   different records insert at the same position and SEQ bytes are above '-' (letters) *)
+Theorem C02_pairk_insertions : forall ref rc0 rest R Q, let block := rc0 :: rest in
+  ~ In 45 ref -> Forall (fun c => 42 <= c) ref ->
+  no_shared_starts block rc0 -> Forall (fun rc => Forall (fun c => 45 < c) (s_seq rc)) block ->
+  block_to_seq_pair ref block = Some (R, Q) ->
+  cproj R Q = concat (map (Otot block) (seq 0 (S (length ref)))).
+Proof. exact pairk_insertions. Qed.
+Print Assumptions C02_pairk_insertions.
 
 Example C02_example_two_records :
   block_to_seq_pair (bs "ACGTACGTACGTACGT")
